@@ -56,6 +56,12 @@ func UnpackRule(rule []string) (map[string]string, error) {
 		ruleLower[i] = strings.ToLower(val)
 	}
 
+	// A rule without any tokens does not match any of the available formats
+	if ruleLen == 0 {
+		return nil,
+			fmt.Errorf("%s Got:\n\t %s", errorMsg, rule)
+	}
+
 	switch ruleLower[0] {
 	case "create", "modify", "delete", "allow", "disallow", "require":
 		if ruleLen != 2 {
